@@ -192,3 +192,64 @@ func TestC01SimRestart(t *testing.T) {
 		},
 	})
 }
+
+var c08Kinds = map[string]bool{"sent-although-log-covers": true, "duplicate-in-healthy-cluster": true, "cluster-notification-lost": true,
+	"cluster-resolved-lost": true, "first-notification-without-firing": true, "flush-storm": true, "harness-or-api-error": true}
+
+func init() {
+	// F15: a later-positioned instance logs the group state it froze before its cluster wait, with the
+	// timestamp of after the wait, over the entry of a delivery another instance made in the meantime.
+	pbt.RegisterSignature("c08-stale-log-write-after-cluster-wait", func(v pbt.Violation) bool {
+		return (v.Kind == "duplicate-in-healthy-cluster" || v.Kind == "cluster-resolved-lost") && v.Facts["stale_write_after_cluster_wait"] == true
+	})
+}
+
+func runClusterCheck(t *testing.T, name, rule string, healthy bool) {
+	pbt.Run(t, pbt.Spec[sim.ClusterScenario]{
+		Property: "C08", Name: name, Rule: rule,
+		Gen: func(t *rapid.T) sim.ClusterScenario { return sim.GenClusterScenario(t, healthy) },
+		Exec: func(sc sim.ClusterScenario) (res pbt.Result) {
+			tr := sim.RunCluster(pbt.T(), &sc)
+			vs, st := sim.JudgeCluster(&sc, tr)
+			for _, v := range vs {
+				if c08Kinds[v.Kind] {
+					res.Add(v.With("trace", sim.DumpCluster(&sc, tr)))
+				}
+			}
+			if healthy {
+				res.NonTrivial = sc.N >= 2 && st.Healthy && st.CrossInstanceDedup > 0
+			} else {
+				res.NonTrivial = sc.N >= 2 && st.FaultsThatMattered > 0 && st.Deliveries > 0
+			}
+			if st.Healthy {
+				res.Class("healthy")
+			}
+			if st.CrossInstanceDedup > 0 {
+				res.Class("cross-instance-dedup")
+			}
+			if st.FaultsThatMattered > 0 {
+				res.Class("gossip-suppressed")
+			}
+			if st.Senders > 1 {
+				res.Class("several-senders")
+			}
+			if st.FiringObligations > 0 {
+				res.Class("firing-obligation")
+			}
+			if st.ResolvedObligations > 0 {
+				res.Class("resolved-obligation")
+			}
+			res.Class(fmt.Sprintf("n=%d", sc.N))
+			res.Sample = map[string]any{"n": sc.N, "positions": sc.Positions, "fates": sc.Fates, "steps": len(sc.Steps), "deliveries": st.Deliveries, "net": tr.Net}
+			return res
+		},
+	})
+}
+
+func TestC08Healthy(t *testing.T) {
+	runClusterCheck(t, "C08Healthy", "2-3 real instances in one bubble (one clock) with a harness-owned gossip network; healthy synchronised runs: every post goes to all instances, no crash/partition/loss, gossip delay < peer_timeout/2, consistent positions (any permutation), instantaneous deliveries. Oracle: the justification rule A.9 over the UNION of all instances' deliveries (the cluster looks like one instance) and the conditional form per attempt. Non-trivial: n>=2 and only one instance ever sent while deliveries happened (cross-instance dedup).", true)
+}
+
+func TestC08Faulty(t *testing.T) {
+	runClusterCheck(t, "C08Faulty", "1-3 real instances in one bubble with a harness-owned gossip network: message drop/long delay/duplication, link down/up, crash and restart with clean/stale/no snapshot, inconsistent position views, skewed posts, receiver faults, periodic full-state exchange. Single firing episode per alert (no re-fire after a resolve). Oracles: at-least-once (firing and resolved obligations over the union of deliveries, witnessed by an instance that was up since before the alert's first submission) and the conditional no-duplicate form (the sender's own log entry at the attempt must not cover the notification). Non-trivial: n>=2, a gossip message was actually lost or blocked, and deliveries happened.", false)
+}
